@@ -170,7 +170,10 @@ Section Spec.
   Definition C02_cmp_small_stmt : Prop := for_types small_types (fun ty n =>
     Forall (fun nc =>
       has (ty ++ "_" ++ fst nc) (fun p => retf p (fun a => map b2z (lanes2 (snd nc) (V n 0 a) (V n n a)))) /\
-      has (ty ++ "_partial_" ++ fst nc) (fun p => retf p (fun a => map b2z (lanes2 (snd nc) (V n 0 a) (V n n a))))) cmp_ops /\
+      has (ty ++ "_partial_" ++ fst nc) (fun p => retf p (fun a => map b2z (lanes2 (snd nc) (V n 0 a) (V n n a)))) /\
+      (* the by-value `_simd` forms (scalar fallback without platform intrinsics) *)
+      has (ty ++ "_" ++ fst nc ++ "_simd") (fun p => retf p (fun a => map b2z (lanes2 (snd nc) (V n 0 a) (V n n a)))) /\
+      has (ty ++ "_partial_" ++ fst nc ++ "_simd") (fun p => retf p (fun a => map b2z (lanes2 (snd nc) (V n 0 a) (V n n a))))) cmp_ops /\
     has (ty ++ "_partial_min") (fun p => ret p (fun a => lanes2 pmin (V n 0 a) (V n n a))) /\
     has (ty ++ "_partial_max") (fun p => ret p (fun a => lanes2 pmax (V n 0 a) (V n n a)))).
 
